@@ -7,6 +7,7 @@ from __future__ import annotations
 
 import ast
 
+from kvstatic.paths import cz
 from kvstatic.core import Repo, Report, ModelError, AnchorError, norm
 from kvstatic import oracle, simtab, simops
 from kvstatic.astutil import (find_all, attr_chain, is_name, target_names, call_name, find_dispatch_loops,
@@ -538,7 +539,7 @@ def check_plumbing(rep, repo, lmod, simmod, init):
     if not ok:
         rep.violate('C01.plumbing', lmod, c2s, body[0], 'LogicSim.c_to_s must copy c[poppo_c_locs] to s[1, poppo_s_locs, :mdim]', node=c2s)
     want2 = 'ifself.mdim==1:self.s[1,self.poppo_s_locs,1:2]=self.c[self.poppo_c_locs]'
-    ok = any(norm(st).replace(' ', '').replace('\n', '') == want2 for st in body)
+    ok = any(cz(st) == want2 for st in body)
     rep.ob('C01.plumbing', 'c_to_s replicates plane 0 for 2-valued results', ok)
     if not ok:
         rep.violate('C01.plumbing', lmod, c2s, body[-1], 'for mdim == 1 the captured plane must be replicated into plane 1 (so 1 reads as ONE=0b11, not UNKNOWN)', node=c2s)
